@@ -21,7 +21,7 @@ class Prop(common.PropertyCheck):
             "fitted autofluorescence >= 0, bead model = standard curve - autofluorescence, callables = Lean Float instance at the returned parameters; "
             "refusals. Non-trivial = distinct rounded (m, b, autofluorescence class, ladder, #populations) draws.")
     batch_size = 100
-    exploration_only = ["that L-BFGS-B reaches the minimiser to within 5% (recovery sweep) — the theorems say what it converges to (exact_law_is_minimiser)"]
+    exploration_only = ["that L-BFGS-B reaches the minimiser to within 5% (recovery sweep) — the theorems say what it converges to (exact_law_is_minimiser) and that nothing else is a zero of the fitted function (exact_law_unique_minimiser, three distinct bead brightnesses)"]
 
     def gen_cases(self):
         rng = self.rng
@@ -40,6 +40,11 @@ class Prop(common.PropertyCheck):
             else:
                 yield {'k': 'recover', 'm': rng.uniform(0.85, 1.25), 'b': rng.uniform(5.5, 7), 'af': 'max', 'af_frac': rng.uniform(0.8, 0.999), 'ladder': lad,
                        'drop': rng.randrange(0, 3), 'blank': True, 'mef_form': 'float'}
+        # only the five brightest peaks, no blank, and an autofluorescence of 10-33% of the dimmest of them
+        for i in range(self.budget(120, 1500)):
+            lad = i % len(LADDERS)
+            yield {'k': 'recover', 'm': rng.uniform(0.85, 1.25), 'b': rng.uniform(0, 7), 'af': 'max', 'af_frac': rng.uniform(0.3, 0.999), 'ladder': lad, 'drop': 0,
+                   'drop_dim': len(LADDERS[lad]) - 1 - 5, 'blank': False, 'mef_form': 'float'}
         for _ in range(self.budget(2500, 40000)):
             yield {'k': 'struct', 'n': rng.randrange(3, 9), 'kind': rng.choice(['convex', 'convex', 'noisy', 'random', 'concave']), 'seed': rng.randrange(1 << 30)}
         for bad in ('two', 'one', 'len', 'len1_mef', 'len1_rfi', 'scalar_mef', 'scalar_rfi'):
@@ -120,6 +125,14 @@ class Prop(common.PropertyCheck):
             out = {'p': [bits(v) for v in p], 'x': [bits(v) for v in xs], 'sc': [bits(v) for v in np.asarray(sc(xs), dtype=float)],
                    'bm': [bits(v) for v in np.asarray(bm(grid), dtype=float)], 'ngrid': len(grid), 'names': list(names), 'str': model_str,
                    'inputs_unchanged': inputs_unchanged}
+            # another, unrelated fit in between: the callables of this fit keep giving this fit's values
+            try:
+                FlowCal.mef.fit_beads_autofluorescence(np.array([12., 150., 900., 5200., 21000.]), np.array([800., 6000., 30000., 140000., 520000.]))
+                out['stable'] = bool(out['sc'] == [bits(v) for v in np.asarray(sc(xs), dtype=float)] and
+                                     out['bm'] == [bits(v) for v in np.asarray(bm(grid), dtype=float)] and
+                                     out['p'] == [bits(float(v)) for v in params])
+            except Exception as e:
+                out['stable'] = 'the unrelated fit raised %s' % type(e).__name__
             if k == 'recover':
                 span = np.exp(np.linspace(np.log(rfi.min()), np.log(rfi.max()), 60))
                 true = np.exp(case['b']) * span ** case['m']
@@ -139,6 +152,8 @@ class Prop(common.PropertyCheck):
             return None if impl['raised'] == 'ValueError' else '%s not refused with ValueError: %s' % (case['what'], impl['raised'])
         if impl.get('inputs_unchanged') is False:
             return "the fit rewrote the caller's fl_rfi / fl_mef arrays (a later fit with the same arrays, or a slice of them, gets other data)"
+        if impl.get('stable') is not True and 'stable' in impl:
+            return 'after a later, unrelated fit the functions and parameters returned by this fit no longer give the same values (%s)' % impl['stable']
         p = [unbits(b) for b in impl['p']]
         if not all(math.isfinite(v) for v in p):
             if case['k'] == 'recover' or math.isnan(p[2]):
